@@ -134,6 +134,8 @@ type uciWorld struct {
 	anyInterrupt bool
 	stackBuf     []byte
 	needInspect  bool
+	autoGrant    bool // every write is granted at once (C08 driver twins)
+	twinOf       *uciWorld
 	readyokOwed  int // isready lines handed to the reader minus readyok lines seen at the writer
 	pending      []byte
 	hasPend      bool
@@ -382,6 +384,12 @@ func (w *uciWorld) settle() {
 				progressed = true
 			default:
 			}
+		}
+		if w.autoGrant && w.hasPend {
+			w.ev("OUT", string(w.pending), 0)
+			w.hasPend, w.pending = false, nil
+			w.wr.grant <- struct{}{}
+			progressed = true
 		}
 		if !w.parked {
 			select {
@@ -690,8 +698,19 @@ func (r *replayChooser) next(*uciWorld) (UStep, bool) {
 // RunUCIScenario runs one session inside the current synctest bubble. With
 // ch == nil the scenario's recorded steps are replayed.
 func RunUCIScenario(sc *UCIScenario, ch chooser, keepEvents bool) (out *UCIOutcome) {
-	out = &UCIOutcome{Stats: map[string]int64{}}
-	w := &uciWorld{sc: sc, out: out, keep: keepEvents, t0: time.Now(), errW: &bytes.Buffer{}}
+	applySpsa(nil) // spsa build: tunables are process globals, every session starts from the defaults
+	w := newUCIWorld(sc)
+	if ch == nil {
+		ch = &replayChooser{steps: sc.Steps}
+	}
+	w.play(ch)
+	return w.finish(true)
+}
+
+// newUCIWorld starts a driver (with its search) inside the current bubble.
+func newUCIWorld(sc *UCIScenario) *uciWorld {
+	out := &UCIOutcome{Stats: map[string]int64{}}
+	w := &uciWorld{sc: sc, out: out, t0: time.Now(), errW: &bytes.Buffer{}}
 	w.rd = &simReader{ch: make(chan []byte)}
 	w.wr = &simWriter{offer: make(chan []byte), grant: make(chan struct{})}
 	w.co = &coop{toSched: make(chan struct{}), resume: make(chan struct{}), resumeN: make(chan int)}
@@ -709,9 +728,11 @@ func RunUCIScenario(sc *UCIScenario, ch chooser, keepEvents bool) (out *UCIOutco
 		defer close(w.done)
 		d.Run()
 	}()
-	if ch == nil {
-		ch = &replayChooser{steps: sc.Steps}
-	}
+	return w
+}
+
+// play applies the steps a chooser yields until it has none left.
+func (w *uciWorld) play(ch chooser) {
 	refused := 0
 	for {
 		w.settle()
@@ -720,7 +741,7 @@ func RunUCIScenario(sc *UCIScenario, ch chooser, keepEvents bool) (out *UCIOutco
 			break
 		}
 		if w.apply(st) {
-			out.Steps = append(out.Steps, st)
+			w.out.Steps = append(w.out.Steps, st)
 			refused = 0
 		} else if refused++; refused > 500 {
 			// a generator that keeps proposing steps the world refuses: end the session
@@ -728,8 +749,12 @@ func RunUCIScenario(sc *UCIScenario, ch chooser, keepEvents bool) (out *UCIOutco
 			break
 		}
 	}
-	// end of session: whatever the script did, the GUI now goes away (if it has
-	// not already) and reads everything the engine still writes
+}
+
+// finish ends the session: whatever the script did, the GUI now goes away (if
+// it has not already) and reads everything the engine still writes.
+func (w *uciWorld) finish(leakCheck bool) *UCIOutcome {
+	out := w.out
 	w.settle()
 	if !w.eofQueued {
 		w.apply(UStep{Op: "eof"})
@@ -739,15 +764,61 @@ func RunUCIScenario(sc *UCIScenario, ch chooser, keepEvents bool) (out *UCIOutco
 	w.settle()
 	out.Done = w.finished
 	out.SimUS = w.now()
-	if w.finished {
+	if w.finished && leakCheck {
 		if leaks := bubbleGoroutines(); len(leaks) > 0 {
 			w.ev("LEAK", strings.Join(leaks, " || "), int64(len(leaks)))
 		}
 	}
-	if !keepEvents {
-		// the monitors need the events; the caller drops them afterwards
-	}
 	return out
+}
+
+// RunUCITwins is the C08 leg through the driver: the session is generated on
+// driver A alone; its recorded steps are then replayed on further drivers that
+// share the bubble and take turns step by step (so that every quantum of one
+// engine's search is followed by a quantum of the other's). Writes are granted
+// at once in this leg (no output back-pressure, hence no select hazard) and
+// the sessions carry no clock-dependent request, so the output streams of all
+// drivers must be equal but for the time field.
+func RunUCITwins(sc *UCIScenario, mk func(w *uciWorld) chooser, n int) (a *UCIOutcome, twins []*UCIOutcome) {
+	applySpsa(nil)
+	wa := newUCIWorld(sc)
+	wa.autoGrant = true
+	wa.play(mk(wa))
+	a = wa.finish(true)
+	steps := append([]UStep(nil), a.Steps...)
+	applySpsa(nil)
+	var ws []*uciWorld
+	for i := 0; i < n; i++ {
+		w := newUCIWorld(sc)
+		w.autoGrant = true
+		w.twinOf = wa
+		ws = append(ws, w)
+	}
+	for _, st := range steps {
+		for _, w := range ws {
+			w.settle()
+			if w.apply(st) {
+				w.out.Steps = append(w.out.Steps, st)
+			}
+		}
+	}
+	for i, w := range ws {
+		twins = append(twins, w.finish(i == len(ws)-1))
+	}
+	return a, twins
+}
+
+// outLines is the sequence of lines the GUI received, time field masked.
+func outLines(out *UCIOutcome) []string {
+	var ls []string
+	for _, e := range out.Events {
+		if e.Kind == "OUT" {
+			for _, l := range strings.Split(strings.TrimSuffix(e.Data, "\n"), "\n") {
+				ls = append(ls, maskTime(l))
+			}
+		}
+	}
+	return ls
 }
 
 // bubbleGoroutines lists goroutines of the current synctest bubble other than
